@@ -38,6 +38,8 @@ StepCall(e) ==
            base == IF o.kind \in {"rf", "interp"} /\ skey \in DOMAIN ref THEN ref[skey] ELSE own
            want == <<base[1], base[2], own[3]>>
            bad  == IF o.kind = "unspecified" THEN {}
+                   ELSE IF o.kind = "AnyError" THEN (IF e.outcome = "ok" THEN {"Outcome"} ELSE {})
+                   ELSE IF o.kind = "set" THEN (IF e.outcome = "ok" THEN {} ELSE {"Outcome"})
                    ELSE IF o.kind \in {"RuntimeError", "ValueError", "NotImplementedError"}
                         THEN (IF e.outcome = o.kind THEN {} ELSE {"Outcome"})
                    ELSE (IF e.outcome # "ok" THEN {"Outcome"}
